@@ -2,7 +2,7 @@
 (found in the JSON index), one two-request harness per type constructor."""
 import re, os
 from ipv import Unit, Ob, Undecided, VERIF
-from gen import insert_stubs
+from gen import insert_stubs, harness_for, order_harness
 
 TF = 'ipr::impl::type_factory::'
 
@@ -72,31 +72,6 @@ VROOTS = dict(
 KIND = dict(T=('type_t*', 'any_type()'), E=('expr_t*', 'any_expr()'), P=('product_t*', 'any_product()'), S=('sum_t*', 'any_sum()'))
 
 
-def harness_for(name, spec, u, info):
-    """two-request harness.  spec: pre (C statements declaring the two requests), call1 / call2 (C expressions), same (C condition),
-    checks (list of (C condition over r1, text))"""
-    t = 'void h_%s(void)\n{\n  pools();\n%s' % (name, spec.get('pre', ''))
-    t += '  __typeof__(%s) r1 = %s;\n' % (spec['call1'], spec['call1'])
-    for cond, text in spec.get('checks', []):
-        t += '  __CPROVER_assert(%s, "C01/C02: %s");\n' % (cond, text)
-    t += ''.join('  W%d = LAST%d;\n' % (x['k'], x['k']) for x in info)   # whatever the first request entered is now in its table
-    t += '  __typeof__(%s) r2 = %s;\n' % (spec['call2'], spec['call2'])
-    t += '  __CPROVER_assert(((void*)r1 == (void*)r2) == (%s), "C01: %s");\n' % (spec['same'], spec['claim'])
-    t += '  if (%s) IPR_CANARY_POINT(); else IPR_CANARY_POINT();\n}\n\n' % spec['same']
-    return t
-
-
-def order_harness(name, spec):
-    """CMP-ORDER lemma for the tables this constructor uses: three requests into empty tables (each builds a new element from
-    its key), then the recorded (element, key) pairs are compared with the comparator clang resolved inside insert."""
-    pre, calls = spec['order']
-    t = 'void h_order_%s(void)\n{\n  pools();\n%s' % (name, pre)
-    for c in calls:
-        t += '  (void)%s;\n' % c
-    t += '  order_check_all();\n  __CPROVER_assert(ORDER_CHECKED >= 1 || %s, "CMP-ORDER: three requests to one table were recorded");\n  IPR_CANARY_POINT();\n}\n\n' % spec.get('order_may_skip', '0')
-    return t
-
-
 def simple(fn, kinds, acc, what):
     pre = ''.join('  %s a%d = %s; %s b%d = %s;\n' % (KIND[k][0], i, KIND[k][1], KIND[k][0], i, KIND[k][1]) for i, k in enumerate(kinds))
     args1 = ', '.join('a%d' % i for i in range(len(kinds))); args2 = ', '.join('b%d' % i for i in range(len(kinds)))
@@ -120,7 +95,6 @@ def build(tier, seed):
                  xfer_first='ipr::Basic_binary<const ipr::Linkage &, const ipr::Calling_convention &>::first', xfer_second='ipr::Basic_binary<const ipr::Linkage &, const ipr::Calling_convention &>::second',
                  empty_string='ipr::String::empty_string', seqT_size='ipr::Sequence<ipr::Type>::size', seqT_get='ipr::Sequence<ipr::Type>::get')
     u = Unit('types', '/repo/src/impl.cxx', roots=sorted(set(TF + f[0] for f in G.values())) + ['ipr::String::empty_string'], vroots=sorted(set(VROOTS.values())), names=names)
-    u.std = dict(sv_compare=('std::basic_string_view<char8_t>::compare',))
     obs = []
     def gen(unit):
         stubs, skipped, info = insert_stubs(unit)
@@ -143,4 +117,9 @@ def build(tier, seed):
                              'operands are arbitrary nodes (foreign objects); foreign transfers spell their linkage / convention with one String node per spelling (C03)',
                              'std::less<> = value / address order; u8string_view::compare = bytewise lexicographic; std::allocator returns fresh storage',
                              'L-history: the witness element stands for anything entered into the table earlier'])
-    return [u], obs, meta
+    # qualified types are one of the constructors of this property: their obligations live in C11 and are run here as well
+    import C11
+    u11, o11, m11 = C11.build(tier, seed)
+    for o in o11:
+        o.id = 'C01.qualified.' + o.id.split('.', 1)[1]
+    return [u] + u11, obs + o11, meta
